@@ -18,35 +18,41 @@ class CompleteStagePlannerMixin:
     if TYPE_CHECKING:
         repository: WorkflowStore
 
-    def _plan_after_stages(self, stage: StageExecution) -> None:
-        """Plan after stages using the stage definition builder."""
+    def _plan_after_stages(self, stage: StageExecution) -> list[StageExecution]:
+        """Plan after stages using the stage definition builder.
+
+        The new stages are only attached in memory: the caller persists them in
+        the same transaction that queues their StartStage, so a crash can never
+        leave a partial set behind (a redelivery would take the partial set for
+        the complete plan and the missing stages would never exist).
+        """
         builder = get_default_factory().get(stage.type)
         graph = StageGraphBuilder.after_stages(stage)
         builder.after_stages(stage, graph)
 
-        for s in graph.build():
+        planned = list(graph.build())
+        for s in planned:
             s.execution = stage.execution
             stage.execution.stages.append(s)  # Add to in-memory list for first_after_stages()
-            self.repository.add_stage(s)
+        return planned
 
-    def _plan_on_failure_stages(self, stage: StageExecution) -> bool:
+    def _plan_on_failure_stages(self, stage: StageExecution) -> list[StageExecution]:
         """
         Plan on-failure stages using the stage definition builder.
 
+        Like _plan_after_stages, the stages are persisted by the caller together
+        with the "_on_failure_planned" flag, so a crash cannot plan them twice.
+
         Returns:
-            True if on-failure stages were added
+            The on-failure stages that were added (empty if there are none)
         """
         builder = get_default_factory().get(stage.type)
         graph = StageGraphBuilder.after_stages(stage)
         builder.on_failure_stages(stage, graph)
 
-        new_stages = graph.build()
-        if not new_stages:
-            return False
-
+        new_stages = list(graph.build())
         for s in new_stages:
             s.execution = stage.execution
             stage.execution.stages.append(s)  # Add to in-memory list for first_after_stages()
-            self.repository.add_stage(s)
 
-        return True
+        return new_stages
